@@ -85,6 +85,9 @@ type trTranslator struct {
 	treePinOK  bool
 	treePinErr string
 	usesTree   map[*trUnit]bool
+	// write-only builder objects (trans_builder.go)
+	builderMs       map[string]*trBuilderMethod
+	builderDeclared bool
 }
 
 func (t *trTranslator) leanNS(u *trUnit) string {
@@ -248,6 +251,9 @@ func (t *trTranslator) leanType(from *trUnit, ty types.Type, pos token.Pos) stri
 		}
 		return "(AMap " + t.leanType(from, x.Key(), pos) + " " + t.leanType(from, x.Elem(), pos) + ")"
 	case *types.Pointer:
+		if r, ok := t.builderType(from, x, pos); ok {
+			return r // the log of the calls on a write-only builder object (trans_builder.go)
+		}
 		if r, ok := t.perfPointerType(from, x, pos); ok {
 			return r // Option T for the types of trNilPtr, the map for a pointer to a map (trans_units_perf.go)
 		}
